@@ -21,6 +21,13 @@
 // handed over), "hmap" (the downstream calls), finally "end" (alias queries for databases that only exist as mapping
 // targets).  When the table ever holds more than one entry for a source database the whole history is repeated on
 // fresh writers; every distinct run is appended after a "reset" event.
+//
+// The api events of a history are built the way core/reader builds them (replicate_channel_manager.go
+// sendCreateCollectionEvent / AddPartition / barrier closure of StartReadCollection): ONE *pb.CollectionInfo per
+// collection and ONE *pb.PartitionInfo per partition for the whole history, the same pointers in the create-collection,
+// create/drop-partition and drop-collection events; only the event struct and its ReplicateParam{Database} are fresh.
+// After every operation the "hmap" event lists the name fields these source objects carry now ("src": must still be
+// the source names) and, after a drop event, what the bookkeeping says under the source names ("recheck").
 package main
 
 import (
@@ -32,7 +39,9 @@ import (
 
 	"github.com/sasha-s/go-deadlock"
 
+	"github.com/zilliztech/milvus-cdc/core/api"
 	"github.com/zilliztech/milvus-cdc/core/config"
+	"github.com/zilliztech/milvus-cdc/core/pb"
 	"github.com/zilliztech/milvus-cdc/core/util"
 	"github.com/zilliztech/milvus-cdc/core/writer"
 
@@ -116,7 +125,9 @@ func isDML(kind string) bool {
 func probed(cs []wfake1.Call) bool { return len(cs) > 0 }
 
 // doOp sends one operation through the writer's real entry point and returns its outcome and the downstream calls
-func doOp(ctx context.Context, f *wfake1.Fake, w *writer.ChannelWriter, kind, sdb, collName string, fail bool, ts uint64) (bool, string, []map[string]interface{}) {
+// (evFix, if given, may replace parts of a freshly built api event before it is handed over)
+func doOp(ctx context.Context, f *wfake1.Fake, w *writer.ChannelWriter, kind, sdb, collName string, fail bool, ts uint64,
+	evFix func(*api.ReplicateAPIEvent)) (bool, string, []map[string]interface{}) {
 	f.CurT = int64(ts)
 	f.Msgs = nil
 	if fail {
@@ -145,7 +156,11 @@ func doOp(ctx context.Context, f *wfake1.Fake, w *writer.ChannelWriter, kind, sd
 		}
 	default:
 		if _, isEv := wfake1.EventKinds[kind]; isEv {
-			ok = w.HandleReplicateAPIEvent(ctx, wfake1.Event(kind, sdb, collName, P1, ts)) == nil
+			ev := wfake1.Event(kind, sdb, collName, P1, ts)
+			if evFix != nil {
+				evFix(ev)
+			}
+			ok = w.HandleReplicateAPIEvent(ctx, ev) == nil
 		} else {
 			coll := collName
 			if kind == "createDatabase" || kind == "dropDatabase" || kind == "alterDatabase" {
@@ -170,7 +185,7 @@ func once(kind, sdb, shape string, fail bool) hx.Event {
 	f := wfake1.New(false)
 	m := mapping(shape, sdb)
 	w := newWriter(f, m)
-	ok, state, calls := doOp(ctx, f, w, kind, sdb, COLL, fail, T)
+	ok, state, calls := doOp(ctx, f, w, kind, sdb, COLL, fail, T, nil)
 
 	// recheck: what the bookkeeping says under the source names
 	recheck, recheckProbed := "", false
@@ -246,6 +261,58 @@ func entriesOf(st map[string]interface{}) (map[string]string, []map[string]inter
 	return m, logged
 }
 
+// srcObj: the reader's objects of one source collection, shared by all api events of the collection in a history
+type srcObj struct {
+	n, coll, db0 string // key (normalised source database, collection) and the database spelling the object was created with
+	info         *pb.CollectionInfo
+	parts        map[string]*pb.PartitionInfo
+	partOrder    []string
+}
+
+type srcObjs struct {
+	byKey map[string]*srcObj
+	order []string
+}
+
+// share puts the collection's (and the partition's) source object into a freshly built event; the first event of a
+// collection / partition donates the object
+func (s *srcObjs) share(ev *api.ReplicateAPIEvent, sdb, coll string) {
+	key := norm(sdb) + "." + coll
+	o, ok := s.byKey[key]
+	if !ok {
+		ev.CollectionInfo.Schema.DbName = sdb
+		o = &srcObj{n: norm(sdb), coll: coll, db0: sdb, info: ev.CollectionInfo, parts: map[string]*pb.PartitionInfo{}}
+		s.byKey[key] = o
+		s.order = append(s.order, key)
+	}
+	ev.CollectionInfo = o.info
+	if ev.PartitionInfo != nil {
+		name := ev.PartitionInfo.PartitionName
+		pi, ok := o.parts[name]
+		if !ok {
+			pi = ev.PartitionInfo
+			o.parts[name] = pi
+			o.partOrder = append(o.partOrder, name)
+		}
+		ev.PartitionInfo = pi
+	}
+}
+
+// dump: the name fields the source objects carry now
+func (s *srcObjs) dump() []map[string]interface{} {
+	res := []map[string]interface{}{}
+	for _, key := range s.order {
+		o := s.byKey[key]
+		parts := []map[string]interface{}{}
+		for _, p := range o.partOrder {
+			parts = append(parts, map[string]interface{}{"part": p, "name": o.parts[p].GetPartitionName()})
+		}
+		res = append(res, map[string]interface{}{"n": o.n, "coll": o.coll, "db0": o.db0,
+			"name": o.info.GetSchema().GetName(), "dbname": o.info.GetSchema().GetDbName(), "parts": parts})
+	}
+	return res
+}
+
 // histOnce replays a history on one fresh writer
 func histOnce(steps []map[string]interface{}) []hx.Event {
 	ctx := context.Background()
@@ -253,6 +320,7 @@ func histOnce(steps []map[string]interface{}) []hx.Event {
 	w := newWriter(f, map[string]string{})
 	table := map[string]string{}
 	srcUsed := map[string]bool{}
+	objs := &srcObjs{byKey: map[string]*srcObj{}}
 	evs := []hx.Event{}
 	for i, st := range steps {
 		switch hx.S(st, "op") {
@@ -266,8 +334,20 @@ func histOnce(steps []map[string]interface{}) []hx.Event {
 		case "hmap":
 			kind, sdb, coll := hx.S(st, "kind"), hx.S(st, "sdb"), hx.S(st, "coll")
 			srcUsed[norm(sdb)] = true
-			ok, state, calls := doOp(ctx, f, w, kind, sdb, coll, false, T+uint64(10*(i+1)))
-			evs = append(evs, hx.Event{"op": "hmap", "kind": kind, "sdb": sdb, "coll": coll, "fail": false, "ok": ok, "state": state, "calls": calls})
+			ts := T + uint64(10*(i+1))
+			ok, state, calls := doOp(ctx, f, w, kind, sdb, coll, false, ts, func(ev *api.ReplicateAPIEvent) { objs.share(ev, sdb, coll) })
+			// after a drop event: what the bookkeeping says under the SOURCE names, at the stamp of the drop
+			recheck, recheckProbed := "", false
+			switch kind {
+			case "dropCollection":
+				recheck = stateName(w.WaitCollectionReady(ctx, coll, sdb, ts))
+				recheckProbed = probed(f.Take())
+			case "dropPartition":
+				recheck = stateName(w.WaitPartitionReady(ctx, coll, P1, sdb, ts))
+				recheckProbed = probed(f.Take())
+			}
+			evs = append(evs, hx.Event{"op": "hmap", "kind": kind, "sdb": sdb, "coll": coll, "fail": false, "ok": ok, "state": state, "calls": calls,
+				"recheck": recheck, "recheckProbed": recheckProbed, "src": objs.dump()})
 		default:
 			fmt.Fprintln(os.Stderr, "unknown history step", st)
 			os.Exit(3)
